@@ -2456,7 +2456,7 @@ class Engine:
                 continue
             yield from self.lib.iterate(self, s1, s, xs)
 
-    def for_seq(self, s, st, xs, elemty, axiom=None):
+    def for_seq(self, s, st, xs, elemty, axiom=None, elem=None):
         """for target in <Seq xs>: with the sidecar invariant (ghost index)."""
         spec, ordn = self.loop_spec(s)
         if spec is None:
@@ -2478,7 +2478,7 @@ class Engine:
                 yield self._loop_exit(s2, st), None
                 continue
             s2.trace = s2.trace + ('f%d' % s.lineno,)
-            x = V(elemty, xs[i])
+            x = V(elemty, xs[i]) if elem is None else elem(i)
             if axiom is not None:
                 s2.pc.append(axiom(i))
             for s3, o in self.assign(s.target, x, s2, s.lineno):
